@@ -98,5 +98,5 @@ example : (⟨some 1, some 2, 0, .inside⟩ : Style).width = 0 ∧
     (RoundedRect.fillArea ⟨some 1, some 2, 0, .inside⟩ ⟨⟨⟨-3, 2⟩, ⟨9, 7⟩⟩, CornerRadii.new ⟨3, 2⟩⟩).InRange := by
   decide
 
--- [V] rounded rectangle, fill colour only with a non-zero stroke width and no stroke colour: `draw()` (scanlines of `fill_area`) vs `pixels()` (fill parts of the stroke area's scanlines) agree iff `fill_area ⊆ stroke_area` (FillInStroke): carried by correspondence + oracle only
+-- (closed) rounded rectangle, fill colour only with a non-zero stroke width and no stroke colour: `draw()` (scanlines of `fill_area`) vs `pixels()` (fill parts of the stroke area's scanlines) agree iff `fill_area ⊆ stroke_area` (FillInStroke): proved in Props/C01/RoundedRectFillOnly.lean (`fill_only_paths_agree_iff`, with both pixel maps in closed form); where FillInStroke is false (C06 known finding, confined radii) the paths differ exactly on `fill_area \ stroke_area`
 end EG.C01
